@@ -226,6 +226,15 @@ class Facts:
             for b in u.bodies:
                 if self.views and self.is_absorbed_helper(b): continue
                 yield self.view(b)
+    def raw_bodies(self, pkg=None, test=False, include_build=False):
+        """bodies as compiled, without inlined views and without hiding absorbed helpers (used by the panic censuses, whose keys
+        describe a construct in the function it is written in)"""
+        for u in self.units:
+            if pkg is not None and u.pkg != pkg: continue
+            if u.is_test != test: continue
+            if u.crate == "build_script_build" and not include_build: continue
+            for b in u.bodies:
+                yield b
     def is_absorbed_helper(self, b):
         """a private helper function the rules do not know by name, all of whose uses are direct calls that the views inline:
         it is analysed as part of its callers, not on its own"""
